@@ -42,6 +42,8 @@ class TState:
         self.holding = set()      # names of cooperative locks held
         self.in_fn = None
         self.fn_failed = False
+        self.deadline = None      # virtual time at which a timed wait of this thread expires (None: not in a timed wait)
+        self.expired = False
 
 
 class EngineTrace:
@@ -91,6 +93,8 @@ class Sched:
         self.snapshots = snapshots
         self.switches = 0
         self.main = None
+        self.vclock = 0.0         # virtual time: advances only when a timed wait expires (what `queue.get(timeout=...)` reads)
+        self.timeouts = 0
 
     # ------------------------------------------------------------------ baton passing
     def current(self):
@@ -110,9 +114,27 @@ class Sched:
         if self.rng.random() < p:
             self.switch()
 
+    def expire_one(self, only_if_stuck):
+        """Time passes: a thread in a TIMED wait may find its timeout expired at any scheduling point (the calls that are
+        running may take arbitrarily long) - and must, if nobody else can run."""
+        timed = [t for t in self.threads if t.started and not t.finished and t.blocked is not None and t.deadline is not None]
+        if not timed:
+            return False
+        if not only_if_stuck and self.rng.random() >= 0.12:
+            return False
+        t = min(timed, key=lambda t: t.deadline) if only_if_stuck else self.rng.choice(timed)
+        self.vclock = max(self.vclock, t.deadline)
+        t.expired = True
+        t.blocked = None
+        self.timeouts += 1
+        return True
+
     def switch(self):
         me = self.current()
+        self.expire_one(only_if_stuck=False)
         cands = self.runnable()
+        if not cands and self.expire_one(only_if_stuck=True):
+            cands = self.runnable()
         if not cands:
             self.deadlock = True
             self._abandon()
@@ -159,7 +181,11 @@ class Sched:
                 t.blocked = None
         if self.aborting:
             return
+        if ts.trace is not None and ts.widx is not None:
+            ts.trace.timeline.append("exit %d" % ts.widx)
         cands = self.runnable()
+        if not cands and self.expire_one(only_if_stuck=True):
+            cands = self.runnable()
         if cands:
             nxt = self.rng.choice(cands)
             self.switches += 1
@@ -369,6 +395,8 @@ class CoopCondition:
                 if t.blocked == ("lock", self.lock):
                     t.blocked = None
             self.waiters.append(me)
+            me.deadline = None if timeout is None else s.vclock + max(0.0, timeout)
+            me.expired = False
             tr = me.trace
             if tr is not None:
                 if self.name == "not_empty" and me.widx is not None:
@@ -376,6 +404,8 @@ class CoopCondition:
                 elif self.name == "all_tasks_done" and me is s.main:
                     tr.wake.append(["joinSleep", None, ""])
             s.block(("cond", self))
+            timed_out = me.expired
+            me.deadline, me.expired = None, False
             if me in self.waiters:
                 self.waiters.remove(me)
             if s.aborting:
@@ -384,6 +414,8 @@ class CoopCondition:
             while self.lock.owner is not None:
                 s.block(("lock", self.lock))
             self.lock.owner = me
+            if timed_out and not (me.pending_exc is not None or self._armed(s, me)):
+                return False
         if me.pending_exc is not None or self._armed(s, me):
             exc = me.pending_exc or KeyboardInterrupt()
             me.pending_exc = None
@@ -600,6 +632,12 @@ def _wrapped_rfog(graph, fn, *, worker_count=None, max_errors=0, scheduler=None)
             x = tr.ids.get(node)
             tr.events.append(("begin", None, x))
             s.begins += 1
+            if w is s.main and s.interrupt_at is not None and not s.interrupted and s.begins >= s.interrupt_at:
+                # Ctrl-C arrives in the main thread wherever it is - here: inside the node function it is running itself
+                s.interrupted = True
+                e = KeyboardInterrupt()
+                tr.events.append(("endfail", None, x, e))
+                raise e
             try:
                 fn(node)
             except BaseException as e:
@@ -657,6 +695,9 @@ def install():
     _orig["threading"] = eng.threading
     _orig["create_queue"] = eng.create_queue
     _orig["rfog"] = eng.run_function_on_graph
+    import queue as _q
+    _orig["qtime"] = _q.time
+    _q.time = lambda: (SCHED.vclock if SCHED is not None else _orig["qtime"]())     # `Queue.get(timeout=)` reads virtual time
     eng.threading = _ThreadingShim()
     eng.create_queue = _wrapped_create_queue
     eng.run_function_on_graph = _wrapped_rfog
@@ -670,6 +711,8 @@ def uninstall():
     eng.threading = _orig["threading"]
     eng.create_queue = _orig["create_queue"]
     eng.run_function_on_graph = _orig["rfog"]
+    import queue as _q
+    _q.time = _orig["qtime"]
     run_physical_mod.run_function_on_graph = _orig["rfog"]
     caching_mod.run_function_on_graph = _orig["rfog"]
     _orig.clear()
